@@ -62,7 +62,7 @@ def main():
             t0 = time.time()
             env = dict(ENV, VERIF_REPO=wt, VERIF_OUT=out)
             rc, o = sh(f"/verif/check {p} {tier}", cwd="/verif", env=env, timeout=7200)
-            keys = re.findall(r"^  key=(\S+)", o, re.M)
+            keys = [k for k in re.findall(r"^  key=(\S+)", o, re.M) if re.match(r"^[CT]\d\d/", k)]
             results[p] = {"tier": tier, "exit": rc, "violation_keys": keys[:12], "wall_s": round(time.time() - t0, 1),
                           "harness_errors": len(re.findall(r"^HARNESS-ERROR", o, re.M)), "build_failed": "BUILD-FAILED" in o}
             print(f"  {name}: check {p} {tier} exit={rc} keys={keys[:4]}")
